@@ -320,6 +320,7 @@ type rec struct {
 	Laws     int64          `json:"laws,omitempty"`
 	Fail     *failRec       `json:"fail,omitempty"`
 	Outcomes map[string]int `json:"outcomes,omitempty"`
+	Vac      map[string]int `json:"vac,omitempty"` // verdicts per condition form / context (vacuity guard)
 	Sample   any            `json:"sample,omitempty"`
 	NoLit    []string       `json:"nolit,omitempty"`
 	Harness  string         `json:"harness,omitempty"`
@@ -488,6 +489,7 @@ type workerState struct {
 	arg      shardArg
 	pw       emitter
 	outcomes map[string]int
+	vac      map[string]int
 	n        int64
 	exact    int64
 	laws     int64
@@ -513,14 +515,14 @@ func (s *workerState) count(out map[string]string) {
 }
 
 func (s *workerState) finish() {
-	s.pw.Emit(rec{Kind: "count", N: s.n, Scripts: s.w.batch.Scripts, Bare: s.w.batch.Bare, Exact: s.exact, Laws: s.laws, Outcomes: s.outcomes})
+	s.pw.Emit(rec{Kind: "count", N: s.n, Scripts: s.w.batch.Scripts, Bare: s.w.batch.Bare, Exact: s.exact, Laws: s.laws, Outcomes: s.outcomes, Vac: s.vac})
 }
 
 func handler(kind string) pool.Handler {
 	return func(pw *pool.W, raw json.RawMessage) {
 		var a shardArg
 		json.Unmarshal(raw, &a)
-		s := &workerState{w: newWorld(a.Tier, a.Seed, a.Pool), arg: a, pw: pw, outcomes: map[string]int{}}
+		s := &workerState{w: newWorld(a.Tier, a.Seed, a.Pool), arg: a, pw: pw, outcomes: map[string]int{}, vac: map[string]int{}}
 		if !pw.Item(fmt.Sprintf("%s/%s/%d/%d", a.Kind, poolTitle(a.Pool), a.Group, a.L)) {
 			return
 		}
@@ -708,6 +710,7 @@ func (s *workerState) binShard() {
 					}
 					tried = append(tried, cf)
 					s.laws++
+					s.vac["cond "+cf+" "+co]++
 					if c1, _ := judge(co, exp); c1 != "" {
 						continue // already reported by the value clause
 					}
@@ -914,6 +917,7 @@ func (s *workerState) ctxShard() {
 				}
 			}
 			name := c.name + "/" + f
+			s.vac["ctx "+c.name+" "+v]++
 			verdict[name] = v
 			order = append(order, name)
 		}
@@ -1065,6 +1069,7 @@ func main() {
 	agg := &formAgg{by: map[string]*aggEntry{}}
 	var total, scripts, bare, exactN, laws int64
 	outcomes := map[string]int{}
+	vac := map[string]int{}
 	var nolit []string
 	pool.Run(shards, pool.Options{}, func(si int, rb json.RawMessage) {
 		var r rec
@@ -1078,6 +1083,9 @@ func main() {
 			laws += r.Laws
 			for k, v := range r.Outcomes {
 				outcomes[k] += v
+			}
+			for k, v := range r.Vac {
+				vac[k] += v
 			}
 		case "fail":
 			if os.Getenv("C03_VERBOSE") != "" {
@@ -1142,6 +1150,28 @@ func main() {
 	if len(outcomes) < 6 {
 		c.HarnessError("vacuous: only %d distinct outcome classes", len(outcomes))
 	}
+	// every condition form and every boolean context must have taken both branches somewhere
+	condSeen := map[string]int64{}
+	for _, cf := range condForms("") {
+		for _, o := range []string{"b:1", "b:0"} {
+			if vac["cond "+cf+" "+o] == 0 {
+				c.HarnessError("vacuous: condition form %s never observed %s", cf, o)
+			}
+			condSeen[cf] += int64(vac["cond "+cf+" "+o])
+		}
+	}
+	ctxSeen := map[string]int64{}
+	for _, cc := range w.ctxCases("", 0) {
+		for _, o := range []string{"T", "F"} {
+			if vac["ctx "+cc.name+" "+o] == 0 {
+				c.HarnessError("vacuous: boolean context %s never observed %s", cc.name, o)
+			}
+			ctxSeen[cc.name] += int64(vac["ctx "+cc.name+" "+o])
+		}
+	}
+	c.Set("condition_form_verdicts", condSeen)
+	c.Set("boolean_context_verdicts", ctxSeen)
+	c.Set("boolean_context_instances", len(ctxSeen))
 	if exactN < 1000 {
 		c.HarnessError("vacuous: only %d cells had an exact expectation", exactN)
 	}
@@ -1241,7 +1271,7 @@ func replay(c *ev.Check) {
 // replayRow re-evaluates the table row of a recorded case in-process.
 func replayRow(w *world, cs caseT, l, r int) []failRec {
 	wp := &localW{}
-	s := &workerState{w: w, pw: wp, outcomes: map[string]int{}}
+	s := &workerState{w: w, pw: wp, outcomes: map[string]int{}, vac: map[string]int{}}
 	s.arg.Tier, s.arg.Seed, s.arg.Pool = cs.Tier, cs.Seed, cs.Pool
 	switch cs.Kind {
 	case "bin":
